@@ -352,3 +352,13 @@ impl<'b, 'a: 'b> FmtVisitor<'a> {
         }
     }
 }
+
+/// Verification hook (compiled only with `--cfg rustfmt_verif`).
+#[cfg(rustfmt_verif)]
+pub(crate) mod verif {
+    use super::*;
+
+    pub(crate) fn compare(a: &ast::Item, b: &ast::Item, context: &RewriteContext<'_>) -> Ordering {
+        compare_items(a, b, context)
+    }
+}
